@@ -27,11 +27,17 @@ theorem cfg_good : cfg.Good := by
 /-- the facts about the code AROUND the parsers (`_psposix.get_terminal_map`, `_pslinux.boot_time`,
     `Process.create_time`, the loop of `Process.threads`, the public `Process.name`) -/
 theorem xcfg_good : xcfg.Good := by
-  refine { toGoodBase := ?_, tmapChecksChr := by decide }
+  refine { toGoodBase := ?_, tmapChecksChr := by decide, createBoot := by decide }
   constructor <;> decide
 
 /-- the `S_ISCHR` test is in the code (fix 9df9f82) -/
 theorem cfg_tmap_checks_chr : xcfg.tmapChecksChr = true := xcfg_good.tmapChecksChr
+
+/-- create_time() says `bt = BOOT_TIME if BOOT_TIME is not None else boot_time()` (fix 29257b1): the translator
+    reports exactly that shape — not `BOOT_TIME or boot_time()`, not a bare `boot_time()`, not anything it
+    does not know -/
+theorem cfg_create_boot_is_not_none : Gen.C06.createBoot = "isNotNone" ∧ xcfg.createBoot = .isNotNone :=
+  ⟨by decide, xcfg_good.createBoot⟩
 
 /-- The four status regexes, byte for byte, as the imported module compiled them:
     `(?m)^Uid:\t(\d+)\t(\d+)\t(\d+)`, `(?m)^Gid:…`, `(?m)^Threads:\t(\d+)`, `ctxt_switches:\t(\d+)`.
@@ -516,47 +522,39 @@ theorem C06_create_time_end_to_end (tck : Nat) (htck : 0 < tck) (w : ProcStatW) 
   unfold createTimeCall bootTimeCall
   rw [C06_stat_roundtrip r hwf, C06_boot_time_exact w hw]
   simp [bind, Except.bind, rawView, pyFloat_renderDec, Spec.createTime, Rat.add_comm, pyDiv_pos _ tck htck,
-    Except.map]
+    Except.map, cachedBoot_none]
 
-/-- Once BOOT_TIME is pinned (≠ 0), `create_time()` uses it and does not look at /proc/stat at all:
-    whatever that file contains now (a stepped clock, garbage), the result is the pinned boot
-    time plus `starttime / CLK_TCK`, and the pin stays. -/
-theorem C06_create_time_uses_pinned_boot_time (tck : Nat) (htck : 0 < tck) (b : Rat) (hb : b ≠ 0) (procStatNow : Bytes)
+/-- Once BOOT_TIME is pinned — to ANY value, 0 included — `create_time()` uses it and does not look at
+    /proc/stat at all: whatever that file contains now (a stepped clock, garbage, nothing), the result is
+    the pinned boot time plus `starttime / CLK_TCK`, and the pin stays. -/
+theorem C06_create_time_uses_pinned_boot_time (tck : Nat) (htck : 0 < tck) (b : Rat) (procStatNow : Bytes)
     (r : StatRec) (hwf : r.WF) :
     createTimeCall cfg xcfg tck (some b) procStatNow (renderStat r)
       = (.ok (Spec.createTime tck b r), some b) := by
   unfold createTimeCall
   rw [C06_stat_roundtrip r hwf]
   simp [bind, Except.bind, rawView, pyFloat_renderDec, Spec.createTime, Rat.add_comm,
-    xcfg_good.createUsesCachedBoot, hb, pyDiv_pos _ tck htck, Except.map]
+    cachedBoot_isNotNone xcfg xcfg_good.createBoot, pyDiv_pos _ tck htck, Except.map]
 
-/-- A pinned BOOT_TIME of 0.0 is falsy in `BOOT_TIME or boot_time()`: /proc/stat IS read again and
-    the btime it holds NOW is used; the pin stays 0.0 (`boot_time()` only pins when it is None). -/
-theorem C06_create_time_zero_boot_time_rereads (tck : Nat) (htck : 0 < tck) (w : ProcStatW) (hw : w.WF) (r : StatRec)
-    (hwf : r.WF) :
-    createTimeCall cfg xcfg tck (some 0) (renderProcStat w) (renderStat r)
-      = (.ok (Spec.createTime tck (w.btime : Rat) r), some 0) := by
-  unfold createTimeCall bootTimeCall
-  rw [C06_stat_roundtrip r hwf, C06_boot_time_exact w hw]
-  simp [bind, Except.bind, rawView, pyFloat_renderDec, Spec.createTime, Rat.add_comm,
-    xcfg_good.createUsesCachedBoot, pyDiv_pos _ tck htck, Except.map]
+/-- … spelled out for the pin that used to be mistaken for "nothing pinned": with BOOT_TIME = 0.0 the result
+    is `starttime / CLK_TCK` exactly, whatever /proc/stat says now -/
+theorem C06_create_time_zero_pin_is_used (tck : Nat) (htck : 0 < tck) (procStatNow : Bytes) (r : StatRec) (hwf : r.WF) :
+    createTimeCall cfg xcfg tck (some 0) procStatNow (renderStat r)
+      = (.ok ((r.starttime : Rat) / tck), some 0) := by
+  rw [C06_create_time_uses_pinned_boot_time tck htck 0 procStatNow r hwf]
+  simp [Spec.createTime]
 
-/-- HISTORY of two `create_time()` calls in one interpreter (any two processes, /proc/stat
-    possibly rewritten in between — a stepped clock): the second call adds the btime the FIRST call
-    read, except when that was 0, in which case it adds the btime published at its own moment. -/
-theorem C06_create_time_two_calls (tck : Nat) (htck : 0 < tck) (w1 w2 : ProcStatW) (hw1 : w1.WF) (hw2 : w2.WF)
+/-- HISTORY of two `create_time()` calls in one interpreter (any two processes; /proc/stat at the second
+    call is ANY byte string — rewritten after a stepped clock, truncated, garbage): the second call adds the
+    btime the FIRST call read — 0 included — and the pin stays what the first call made it. -/
+theorem C06_create_time_two_calls (tck : Nat) (htck : 0 < tck) (w1 : ProcStatW) (hw1 : w1.WF) (procStat2 : Bytes)
     (r1 r2 : StatRec) (h1 : r1.WF) (h2 : r2.WF) :
     createTimeCall cfg xcfg tck
         (createTimeCall cfg xcfg tck none (renderProcStat w1) (renderStat r1)).2
-        (renderProcStat w2) (renderStat r2)
-      = (.ok (Spec.createTime tck (((if w1.btime = 0 then w2.btime else w1.btime) : Nat) : Rat) r2),
-         some (w1.btime : Rat)) := by
+        procStat2 (renderStat r2)
+      = (.ok (Spec.createTime tck (w1.btime : Rat) r2), some (w1.btime : Rat)) := by
   rw [C06_create_time_end_to_end tck htck w1 hw1 r1 h1]
-  by_cases hz : w1.btime = 0
-  · simp only [hz, if_true, Nat.cast_zero]
-    exact C06_create_time_zero_boot_time_rereads tck htck w2 hw2 r2 h2
-  · simp only [hz, if_false]
-    exact C06_create_time_uses_pinned_boot_time tck htck _ (by exact_mod_cast hz) _ r2 h2
+  exact C06_create_time_uses_pinned_boot_time tck htck _ _ r2 h2
 
 /-! ### histories of any length, `create_time()` and the public `boot_time()` interleaved -/
 
@@ -569,73 +567,156 @@ def TimeOp.WF : TimeOp → Prop
   | .create w r => w.WF ∧ r.WF
   | .boot w => w.WF
 
+/-- what a call needs once something is pinned: `create_time()` no longer depends on /proc/stat being readable -/
+def TimeOp.WFLater : TimeOp → Prop
+  | .create _ r => r.WF
+  | .boot w => w.WF
+
 def TimeOp.world : TimeOp → ProcStatW
   | .create w _ => w
   | .boot w => w
 
-def runTimeOp (tck : Nat) (cache : Option Rat) : TimeOp → Res Rat × Option Rat
-  | .create w r => createTimeCall cfg xcfg tck cache (renderProcStat w) (renderStat r)
-  | .boot w => bootTimeCall xcfg cache (renderProcStat w)
+/-- one call under the configuration `x` of the code around the parsers -/
+def runTimeOp (x : XCfg) (tck : Nat) (cache : Option Rat) : TimeOp → Res Rat × Option Rat
+  | .create w r => createTimeCall cfg x tck cache (renderProcStat w) (renderStat r)
+  | .boot w => bootTimeCall x cache (renderProcStat w)
 
 /-- the calls of one interpreter, in order, threading the BOOT_TIME pin -/
-def runTimeOps (tck : Nat) : Option Rat → List TimeOp → List (Res Rat) × Option Rat
+def runTimeOps (x : XCfg) (tck : Nat) : Option Rat → List TimeOp → List (Res Rat) × Option Rat
   | c, [] => ([], c)
   | c, op :: ops =>
-    ((runTimeOp tck c op).1 :: (runTimeOps tck (runTimeOp tck c op).2 ops).1,
-     (runTimeOps tck (runTimeOp tck c op).2 ops).2)
+    ((runTimeOp x tck c op).1 :: (runTimeOps x tck (runTimeOp x tck c op).2 ops).1,
+     (runTimeOps x tck (runTimeOp x tck c op).2 ops).2)
 
-/-- what each call is promised, given the btime `pin` the FIRST call of the interpreter read -/
-def TimeOp.promised (tck : Nat) (pin : Nat) : TimeOp → Rat
-  | .create w r => Spec.createTime tck (((if pin = 0 then w.btime else pin) : Nat) : Rat) r
+/-- What each call is PROMISED, given the boot time `pin` the interpreter pinned at its first call. Written from
+    the property ("start time offset by boot time", the boot time being the one value the interpreter holds on
+    to), not from the code: `create_time()` = pin + starttime / CLK_TCK whatever the pin is; the public
+    `boot_time()` = the btime published at its own moment. -/
+def TimeOp.promised (tck : Nat) (pin : Rat) : TimeOp → Rat
+  | .create _ r => Spec.createTime tck pin r
   | .boot w => (w.btime : Rat)
 
-theorem runTimeOps_pinned (tck : Nat) (htck : 0 < tck) (b : Nat) :
-    ∀ ops : List TimeOp, (∀ o ∈ ops, o.WF) →
-      runTimeOps tck (some (b : Rat)) ops = (ops.map fun o => .ok (o.promised tck b), some (b : Rat)) := by
+theorem runTimeOps_pinned (tck : Nat) (htck : 0 < tck) (b : Rat) :
+    ∀ ops : List TimeOp, (∀ o ∈ ops, o.WFLater) →
+      runTimeOps xcfg tck (some b) ops = (ops.map fun o => .ok (o.promised tck b), some b) := by
   intro ops
   induction ops with
   | nil => intro _; rfl
   | cons o os ih =>
     intro hwf
-    have ho : o.WF := hwf o (by simp)
-    have hstep : runTimeOp tck (some (b : Rat)) o = (.ok (o.promised tck b), some (b : Rat)) := by
+    have ho : o.WFLater := hwf o (by simp)
+    have hstep : runTimeOp xcfg tck (some b) o = (.ok (o.promised tck b), some b) := by
       cases o with
       | create w r =>
-        by_cases hz : b = 0
-        · subst hz
-          simpa [runTimeOp, TimeOp.promised] using
-            C06_create_time_zero_boot_time_rereads tck htck w ho.1 r ho.2
-        · simpa [runTimeOp, TimeOp.promised, hz] using
-            C06_create_time_uses_pinned_boot_time tck htck (b : Rat) (by exact_mod_cast hz)
-              (renderProcStat w) r ho.2
+        simpa [runTimeOp, TimeOp.promised] using
+          C06_create_time_uses_pinned_boot_time tck htck b (renderProcStat w) r ho
       | boot w =>
         simp [runTimeOp, TimeOp.promised, bootTimeCall, C06_boot_time_exact w ho]
     simp only [runTimeOps, hstep, ih (fun o h => hwf o (by simp [h])), List.map_cons]
 
+/-- the full statement about histories, for a configuration `x` of the code: the first call of either kind
+    pins BOOT_TIME to the btime it read, for good, and every call returns what it is promised under that pin -/
+def TimeHistoryPinned_Full (x : XCfg) : Prop :=
+  ∀ (tck : Nat), 0 < tck → ∀ (op0 : TimeOp) (ops : List TimeOp), op0.WF → (∀ o ∈ ops, o.WF) →
+    runTimeOps x tck none (op0 :: ops)
+      = ((op0 :: ops).map fun o => .ok (o.promised tck (op0.world.btime : Rat)), some (op0.world.btime : Rat))
+
 /-- HISTORY of ANY length, `create_time()` calls (any processes) and public `boot_time()` calls
     interleaved, /proc/stat possibly different at every call (stepped clock): the first call of either
-    kind pins BOOT_TIME to the btime it read, for good; every `create_time()` adds that pinned btime
-    (or, if that was 0 — falsy —, the btime published at its own moment); every `boot_time()` returns
-    the btime published at its own moment (it always re-reads, and pins only when nothing is pinned). -/
+    kind pins BOOT_TIME to the btime it read — 0 included —, for good; every `create_time()` adds that pinned
+    btime and needs nothing from /proc/stat; every `boot_time()` returns the btime published at its own
+    moment (it always re-reads, and pins only when nothing is pinned). -/
 theorem C06_time_call_history (tck : Nat) (htck : 0 < tck) (op0 : TimeOp) (ops : List TimeOp)
-    (hwf : ∀ o ∈ op0 :: ops, o.WF) :
-    runTimeOps tck none (op0 :: ops)
-      = ((op0 :: ops).map fun o => .ok (o.promised tck op0.world.btime), some (op0.world.btime : Rat)) := by
-  have h0 : op0.WF := hwf op0 (by simp)
-  have hstep : ∀ b : Nat, op0.world.btime = b →
-      runTimeOp tck none op0 = (.ok (op0.promised tck b), some (b : Rat)) := by
-    intro b hb
+    (hwf0 : op0.WF) (hwf : ∀ o ∈ ops, o.WFLater) :
+    runTimeOps xcfg tck none (op0 :: ops)
+      = ((op0 :: ops).map fun o => .ok (o.promised tck (op0.world.btime : Rat)), some (op0.world.btime : Rat)) := by
+  have hstep : runTimeOp xcfg tck none op0
+      = (.ok (op0.promised tck (op0.world.btime : Rat)), some (op0.world.btime : Rat)) := by
     cases op0 with
     | create w r =>
-      simp only [TimeOp.world] at hb
-      subst hb
-      simp only [runTimeOp, TimeOp.promised]
-      split <;> exact C06_create_time_end_to_end tck htck w h0.1 r h0.2
+      simp only [runTimeOp, TimeOp.promised, TimeOp.world]
+      exact C06_create_time_end_to_end tck htck w hwf0.1 r hwf0.2
     | boot w =>
-      simp only [TimeOp.world] at hb
-      subst hb
-      simp [runTimeOp, TimeOp.promised, bootTimeCall, C06_boot_time_exact w h0]
-  simp only [runTimeOps, hstep _ rfl, runTimeOps_pinned tck htck _ ops (fun o h => hwf o (by simp [h])), List.map_cons]
+      simp [runTimeOp, TimeOp.promised, TimeOp.world, bootTimeCall, C06_boot_time_exact w hwf0]
+  simp only [runTimeOps, hstep, runTimeOps_pinned tck htck _ ops hwf, List.map_cons]
+
+/-- the code as it is satisfies the full statement -/
+theorem C06_time_history_pinned_full : TimeHistoryPinned_Full xcfg := by
+  intro tck htck op0 ops h0 hwf
+  refine C06_time_call_history tck htck op0 ops h0 (fun o ho => ?_)
+  have := hwf o ho
+  cases o with
+  | create w r => exact this.2
+  | boot w => exact this
+
+/-! ### WHAT IF: the tree before 29257b1, `bt = BOOT_TIME or boot_time()`
+
+  The same model with the `or` setting, so that a tree without the repair still has a true description —
+  and a proof that it does NOT keep the promise above. -/
+
+/-- the configuration of the code as it is, except that create_time() tests BOOT_TIME for truthiness -/
+def xcfgOr : XCfg := { xcfg with createBoot := .or }
+
+theorem xcfgOr_base : xcfgOr.GoodBase := by
+  constructor <;> decide
+
+/-- under `or`, a non-zero pin is used exactly as in the code as it is -/
+theorem C06_or_create_time_uses_nonzero_pin (tck : Nat) (htck : 0 < tck) (b : Rat) (hb : b ≠ 0) (procStatNow : Bytes)
+    (r : StatRec) (hwf : r.WF) :
+    createTimeCall cfg xcfgOr tck (some b) procStatNow (renderStat r)
+      = (.ok (Spec.createTime tck b r), some b) := by
+  unfold createTimeCall
+  rw [C06_stat_roundtrip r hwf]
+  simp [bind, Except.bind, rawView, pyFloat_renderDec, Spec.createTime, Rat.add_comm,
+    cachedBoot_or_nonzero xcfgOr rfl b hb, pyDiv_pos _ tck htck, Except.map]
+
+/-- under `or`, a pinned BOOT_TIME of 0.0 is falsy: /proc/stat IS read again and the btime it holds NOW is
+    used; the pin stays 0.0 (`boot_time()` only pins when it is None) -/
+theorem C06_create_time_zero_boot_time_rereads (tck : Nat) (htck : 0 < tck) (w : ProcStatW) (hw : w.WF) (r : StatRec)
+    (hwf : r.WF) :
+    createTimeCall cfg xcfgOr tck (some 0) (renderProcStat w) (renderStat r)
+      = (.ok (Spec.createTime tck (w.btime : Rat) r), some 0) := by
+  unfold createTimeCall bootTimeCall
+  rw [C06_stat_roundtrip r hwf, bootTime_render xcfgOr xcfgOr_base w hw]
+  simp [bind, Except.bind, rawView, pyFloat_renderDec, Spec.createTime, Rat.add_comm,
+    cachedBoot_or_zero xcfgOr rfl, pyDiv_pos _ tck htck, Except.map]
+
+/-- under `or`, the two-call history: the second call adds the btime the first call read, EXCEPT when that
+    was 0, in which case it adds the btime published at its own moment -/
+theorem C06_or_create_time_two_calls (tck : Nat) (htck : 0 < tck) (w1 w2 : ProcStatW) (hw1 : w1.WF) (hw2 : w2.WF)
+    (r1 r2 : StatRec) (h1 : r1.WF) (h2 : r2.WF) :
+    createTimeCall cfg xcfgOr tck
+        (createTimeCall cfg xcfgOr tck none (renderProcStat w1) (renderStat r1)).2
+        (renderProcStat w2) (renderStat r2)
+      = (.ok (Spec.createTime tck (((if w1.btime = 0 then w2.btime else w1.btime) : Nat) : Rat) r2),
+         some (w1.btime : Rat)) := by
+  have hfirst : createTimeCall cfg xcfgOr tck none (renderProcStat w1) (renderStat r1)
+      = (.ok (Spec.createTime tck (w1.btime : Rat) r1), some (w1.btime : Rat)) := by
+    unfold createTimeCall bootTimeCall
+    rw [C06_stat_roundtrip r1 h1, bootTime_render xcfgOr xcfgOr_base w1 hw1]
+    simp [bind, Except.bind, rawView, pyFloat_renderDec, Spec.createTime, Rat.add_comm, pyDiv_pos _ tck htck,
+      Except.map, cachedBoot_none]
+  rw [hfirst]
+  by_cases hz : w1.btime = 0
+  · simp only [hz, if_true, Nat.cast_zero]
+    exact C06_create_time_zero_boot_time_rereads tck htck w2 hw2 r2 h2
+  · simp only [hz, if_false]
+    exact C06_or_create_time_uses_nonzero_pin tck htck _ (by exact_mod_cast hz) _ r2 h2
+
+/-- … and therefore the `or` tree BREAKS the promise: an interpreter whose first `boot_time()` read btime 0
+    (pin 0.0), then the clock is stepped to btime 1: `create_time()` adds 1, not the pinned 0. -/
+theorem C06_time_history_or_counterexample : ¬ TimeHistoryPinned_Full xcfgOr := by
+  intro h
+  have hw0 : ProcStatW.WF ⟨[], 0, []⟩ := by simp [ProcStatW.WF]
+  have hw1 : ProcStatW.WF ⟨[], 1, []⟩ := by simp [ProcStatW.WF]
+  have hr : witnessNoTty.WF := witnessThread_wf
+  have := h 100 (by decide) (.boot ⟨[], 0, []⟩) [.create ⟨[], 1, []⟩ witnessNoTty] hw0
+    (by intro o ho; simp at ho; subst ho; exact ⟨hw1, hr⟩)
+  simp only [runTimeOps, runTimeOp, bootTimeCall, bootTime_render xcfgOr xcfgOr_base _ hw0, TimeOp.world,
+    Nat.cast_zero, C06_create_time_zero_boot_time_rereads 100 (by decide) _ hw1 _ hr, List.map_cons, List.map_nil,
+    TimeOp.promised, Prod.mk.injEq, List.cons.injEq, Except.ok.injEq, true_and, and_true] at this
+  revert this
+  simp [Spec.createTime]
 
 /-! ## `threads()`: which threads, in which order -/
 
